@@ -16,7 +16,7 @@
   definite) is NOT proved; for `n ≥ 3` the Cholesky clause of the domain stays the model
   predicate `LA.choleskyNew cov ≠ none`.
 -/
-import Statrs.Draft.C09.VectorConstructorsB
+import Statrs.Props.C09.VectorConstructorsB
 import Statrs.Real.Simp
 import Mathlib.LinearAlgebra.Matrix.PosDef
 set_option linter.unusedSectionVars false
